@@ -4,7 +4,8 @@
 //! namespace with a tmpfs on /run (the check starts the harness under `unshare -m`).
 //!   pol <start_ns> <cfg_refid|-1> <n> { t_ns mode d_ns e_ns phc refid tag }*n
 //!     mode 1: tracking reply after d ns; 0: reply with a wrong sequence number; 2: garbage datagram;
-//!     3: no socket; 4: a reply without tracking data; 5: no reply at all (the query times out, 3 x 1 s of real time).  e: extra time until the grace period is evaluated.  phc -1: file absent, -2: a directory in its place (open succeeds, read fails).
+//!     3: no socket; 4: a reply without tracking data; 5: no reply at all (the query times out, 3 x 1 s of real time);
+//!     6: no socket when the poll asks, there again right after (chronyd restarted while the loop waits).  e: extra time until the grace period is evaluated.  phc -1: file absent, -2: a directory in its place (open succeeds, read fails).
 //! -> per iteration  D:<as_of_ns>:<phc>:<refid>:<tag> | NG | NR | PG | PF , then  ORDER:<ok|query-before-read@i>
 use crate::bound::mk_tracking;
 use crate::util::*;
@@ -65,7 +66,7 @@ fn apply_step(sh: &Shared, i: usize) {
     sh.mono_reads.store(0, SeqCst);
     let s = sh.steps[i];
     set_mono_ns(s.t);
-    if s.mode == 3 {
+    if s.mode == 3 || s.mode == 6 {
         let _ = std::fs::rename(SOCK, HIDDEN);
     } else {
         let _ = std::fs::rename(HIDDEN, SOCK);
@@ -83,7 +84,17 @@ fn apply_step(sh: &Shared, i: usize) {
     }
 }
 
+/// polt: the same script, but the loop is left to its own cadence - a wait of 60 ms (of real time) that ends by
+/// time-out, nobody writing to the poller's mailbox between two polls - as in the running daemon
+pub fn run_timed(toks: &[&str]) -> String {
+    run_with(toks, true)
+}
+
 pub fn run(toks: &[&str]) -> String {
+    run_with(toks, false)
+}
+
+fn run_with(toks: &[&str], timed: bool) -> String {
     let start: i64 = p(toks[0]);
     let cfg_refid: i64 = p(toks[1]);
     let n: usize = p(toks[2]);
@@ -113,13 +124,35 @@ pub fn run(toks: &[&str]) -> String {
     let (sh2, stop2) = (sh.clone(), stop.clone());
     let server = std::thread::spawn(move || {
         let mut buf = [0u8; 1500];
+        let mut last_req: Option<usize> = None;
         while !stop2.load(SeqCst) {
             let (len, from) = match srv.recv_from(&mut buf) {
                 Ok(x) => x,
                 Err(_) => continue,
             };
-            let i = sh2.completed.load(SeqCst);      // the iteration this request belongs to
-            if sh2.coarse.load(SeqCst) <= i {
+            let i = if timed {
+                // the loop runs on its own cadence and the scripts used here make it ask once per poll: the
+                // request belongs to the poll whose as-of reading was taken last; a second request without a new
+                // as-of reading in between belongs to a poll that has not taken its reading yet
+                let it = sh2.coarse.load(SeqCst).saturating_sub(1);
+                if it >= sh2.steps.len() {
+                    continue; // a poll beyond the script (the abort is on its way): not answered, not judged
+                }
+                if last_req == Some(it) && it + 1 < sh2.steps.len() {
+                    let mut ob = sh2.order_bad.lock().unwrap();
+                    if ob.is_none() {
+                        *ob = Some(it + 1);
+                    }
+                    last_req = Some(it + 1);
+                    it + 1
+                } else {
+                    last_req = Some(it);
+                    it
+                }
+            } else {
+                sh2.completed.load(SeqCst)      // the iteration this request belongs to
+            };
+            if !timed && sh2.coarse.load(SeqCst) <= i {
                 // the request of iteration i arrived before the as_of reading of iteration i was taken
                 let mut ob = sh2.order_bad.lock().unwrap();
                 if ob.is_none() {
@@ -195,8 +228,17 @@ pub fn run(toks: &[&str]) -> String {
             let k = sh3.mono_reads.fetch_add(1, SeqCst) + 1;
             let grace_read = if s.mode == 1 { 2 } else { 1 };
             if k == grace_read {
-                let extra = s.e + if s.mode == 3 { s.d } else { 0 };
+                let extra = s.e + if s.mode == 3 || s.mode == 6 { s.d } else { 0 };
                 set_mono_ns(mono_ns() + extra);
+                if s.mode == 6 {
+                    // chronyd is back right after the poll that missed it, while the loop waits for its next turn
+                    let _ = std::fs::rename(HIDDEN, SOCK);
+                }
+            } else if timed && k > grace_read {
+                // the readings of the wait itself: virtual time has to pass for its time-out to come (and some
+                // real time too, so that the coordinator has recorded the outcome of this poll before the next)
+                std::thread::sleep(Duration::from_millis(25));
+                set_mono_ns(mono_ns() + 100_000_000);
             }
         }
     })));
@@ -205,7 +247,7 @@ pub fn run(toks: &[&str]) -> String {
         vclock::only_thread(vclock::gettid());
         vclock::enable(true);
         tid_tx.send(()).unwrap();
-        let r = std::panic::catch_unwind(std::panic::AssertUnwindSafe(|| pverif::run_poller(ctx, phc_info, Duration::from_secs(1_000_000_000))));
+        let r = std::panic::catch_unwind(std::panic::AssertUnwindSafe(|| pverif::run_poller(ctx, phc_info, if timed { Duration::from_millis(60) } else { Duration::from_secs(1_000_000_000) })));
         vclock::enable(false);
         vclock::only_thread(0);
         r.is_ok()
@@ -235,7 +277,9 @@ pub fn run(toks: &[&str]) -> String {
         sh.completed.store(i + 1, SeqCst);
         // wake the poller for its next iteration (or tell it to stop)
         let m = if i + 1 == n { Message::ThreadAbort } else { Message::ChronyNotRespondingGracePeriod };
-        let _ = dbox.send(&ChannelId::ClockErrorBoundPoller, m);
+        if !timed || i + 1 == n {
+            let _ = dbox.send(&ChannelId::ClockErrorBoundPoller, m);
+        }
     }
     if n == 0 {
         let _ = dbox.send(&ChannelId::ClockErrorBoundPoller, Message::ThreadAbort);
